@@ -278,7 +278,8 @@ def main(argv=None):
             for fl in b.get('failures', [])[:1]:
                 fn = os.path.join(rdir, "%s_b.json" % hashlib.sha1(("%s|%s" % (name, mode)).encode()).hexdigest()[:12])
                 rec = dict(property=prop, obligation=None, failed_obligation=name, mode=mode, kind='unit',
-                           unit=r0['unit_spec'], function=r0['target'], values=fl['values'], shard=0,
+                           unit=r0['unit_spec'], function=r0['target'], values=fl['values'], shard=fl.get('shard', 0),
+                           history=fl.get('history', []),
                            native_contract_failures=fl['obligations'], goal=items[0][1].get('goal'),
                            solver_output=items[0][1].get('model_text'),
                            found_by="bounded search of the real code with the same contract, after the verifier "
@@ -336,7 +337,8 @@ def main(argv=None):
                     continue
                 fn = os.path.join(rdir, "bounded_%s.json" % hashlib.sha1((name + r['mode']).encode()).hexdigest()[:12])
                 rec = dict(property=prop, obligation=name, mode=r['mode'], kind='unit', unit=r['unit_spec'],
-                           function=r['target'], values=fl['values'], found_by='bounded stand-in (random inputs)')
+                           function=r['target'], values=fl['values'], shard=fl.get('shard', 0), history=fl.get('history', []),
+                           found_by='bounded stand-in (random inputs)')
                 with open(fn, 'w') as f:
                     json.dump(rec, f, indent=1, default=str)
                 ok, info = native_replay(fn, r['mode'] == 'O')
@@ -356,7 +358,8 @@ def main(argv=None):
                 name = fl['obligations'][0]
                 fn = os.path.join(rdir, "bounded_%s.json" % hashlib.sha1((name + mode).encode()).hexdigest()[:12])
                 rec = dict(property=prop, obligation=name, mode=mode, kind='unit', unit=unit_spec(u), function=u.target,
-                           values=fl['values'], found_by='bounded stand-in (by design)')
+                           values=fl['values'], shard=fl.get('shard', 0), history=fl.get('history', []),
+                           found_by='bounded stand-in (by design)')
                 with open(fn, 'w') as f:
                     json.dump(rec, f, indent=1, default=str)
                 ok, info = native_replay(fn, mode == 'O')
